@@ -74,9 +74,33 @@ pub fn gen_pcm(kind: &str, rng: &mut Rng, channels: usize, bps: u32, frames: usi
     let mut walk = vec![0i64; channels];
     let cval: Vec<i64> = (0..channels).map(|_| rng.range(lo, hi)).collect();
     let wasted = 1 + rng.below((bps.max(2) - 1).min(6) as u64) as u32;
+    // per-channel / per-block mixtures: every channel (and every 16-frame block) draws its own behaviour
+    let chan_kind: Vec<u64> = (0..channels).map(|_| rng.below(5)).collect();
+    let mut block_kind: Vec<u64> = vec![0; channels];
     for i in 0..frames {
+        if i % 16 == 0 {
+            for k in block_kind.iter_mut() {
+                *k = rng.below(4);
+            }
+        }
         for c in 0..channels {
             let v: i64 = match kind {
+                // one channel silent, the others active (hard-panned material)
+                "panfirst" => if c == 0 { 0 } else { rng.range(lo / 2, hi / 2) },
+                "panlast" => if c + 1 == channels { 0 } else { rng.range(lo / 2, hi / 2) },
+                "chanmix" => match chan_kind[c] {
+                    0 => 0,
+                    1 => cval[c],
+                    2 => rng.range(lo, hi),
+                    3 => (rng.range(lo, hi) >> 3) << 3,
+                    _ => { let step = (hi / 64).max(1); walk[c] = (walk[c] + rng.range(-step, step)).clamp(lo, hi); walk[c] }
+                },
+                "blockmix" => match block_kind[c] {
+                    0 => 0,
+                    1 => cval[c],
+                    2 => rng.range(lo, hi),
+                    _ => { let step = (hi / 64).max(1); walk[c] = (walk[c] + rng.range(-step, step)).clamp(lo, hi); walk[c] }
+                },
                 "noise" => rng.range(lo, hi),
                 "small" => rng.range(-3.max(lo), 3.min(hi)),
                 "sine" => {
@@ -121,7 +145,7 @@ pub fn gen_pcm(kind: &str, rng: &mut Rng, channels: usize, bps: u32, frames: usi
 }
 
 pub const SIGNALS: &[&str] = &[
-    "noise", "small", "sine", "walk", "const", "zero", "extremes", "stereo", "wasted", "ramp", "impulse",
+    "noise", "small", "sine", "walk", "const", "zero", "extremes", "stereo", "wasted", "ramp", "impulse", "panfirst", "panlast", "chanmix", "blockmix",
 ];
 
 pub fn bytes_per_sample(bps: u32) -> usize {
